@@ -530,6 +530,8 @@ impl<'de, R: Read<'de>> Parser<R> {
                 let next = self.peek_or_null()?;
                 if next == 0 || is_delimiter(next) || is_sign_subsequent(next) || next > 127 {
                     Token::Symbol(self.parse_symbol_suffix("-")?.into())
+                } else if next == b'.' {
+                    self.parse_sign_dot_symbol("-")?
                 } else {
                     Token::Number(self.parse_num_literal(10, false)?)
                 }
@@ -539,6 +541,8 @@ impl<'de, R: Read<'de>> Parser<R> {
                 let next = self.peek_or_null()?;
                 if next == 0 || is_delimiter(next) || is_sign_subsequent(next) || next > 127 {
                     Token::Symbol(self.parse_symbol_suffix("+")?.into())
+                } else if next == b'.' {
+                    self.parse_sign_dot_symbol("+")?
                 } else {
                     Token::Number(self.parse_num_literal(10, true)?)
                 }
@@ -819,6 +823,17 @@ impl<'de, R: Read<'de>> Parser<R> {
         self.scratch.clear();
         self.scratch.extend(prefix.as_bytes());
         self.parse_symbol_scratch_suffix()
+    }
+
+    /// Parses the peculiar identifiers starting with a sign followed by a dot
+    /// (e.g. `+.a` or `-..`, R7RS 7.1.1). A digit after the dot would make the
+    /// token a decimal number without integral part, which is not supported.
+    fn parse_sign_dot_symbol(&mut self, sign: &str) -> Result<Token> {
+        let name = self.parse_symbol_suffix(sign)?;
+        if name.as_bytes().get(2).map_or(false, u8::is_ascii_digit) {
+            return Err(self.error(ErrorCode::InvalidNumber));
+        }
+        Ok(Token::Symbol(name.into()))
     }
 
     fn parse_symbol_scratch_suffix(&mut self) -> Result<String> {
